@@ -36,6 +36,21 @@ def cold_cases(tier):
     return cases
 
 
+def disconnected_cases(tier):
+    """inputs that never hold the observer: never() (its subscription is `()`), a subject terminated beforehand"""
+    cases = []
+    n = 0
+    for kind in ("never", "dead"):
+        for k in range(4):
+            for h in itertools.product(["u", "ud", "(n 1)", "c"] if kind == "dead" else ["u", "ud"], repeat=k):
+                for sh in SHAPES:
+                    n += 1
+                    form = "local" if n % 2 else "threads"
+                    cases.append(("d%d" % n, "(case d%d finalize %s %s %s (stims %s))" % (n, form, kind, sh, " ".join(h)),
+                                  {"kind": kind, "shape": sh.strip("()").split()[0], "len": k}))
+    return cases
+
+
 def race_cases(tier):
     rounds = 300 if tier == "quick" else 5000
     return [("r%d" % i, "(case r%d finalize_race %d %d)" % (i, rounds, i), {"kind": "race", "items": i}) for i in range(4)]
@@ -46,7 +61,7 @@ def run(tier, seed, replay=None):
     proof_stage(rep, "C15")
     if not build_stage(rep):
         return rep.finish()
-    cases = load_replay_case(replay) if replay else hot_cases(tier) + cold_cases(tier) + race_cases(tier)
+    cases = load_replay_case(replay) if replay else hot_cases(tier) + cold_cases(tier) + disconnected_cases(tier) + race_cases(tier)
     correspond(rep, "C15", cases, "C15_exactly_once_right_after / C15_at_most_once / C15_once_when_unsubscribed / C15_race_once")
     c = rep.coverage
     hist = {}
@@ -58,7 +73,9 @@ def run(tier, seed, replay=None):
     c["rule"] = ("every sequence of <= %d stimuli over {item, complete, error, unsubscribe (explicit or by dropping the guard)} pushed into a subject "
                  "behind finalize / finalize_threads, alone and with take(0..2) before or after it; every script of <= %d calls played by a "
                  "create() source during subscribe, with and without a later unsubscribe; the callback logs into the subscriber's own log with a "
-                 "marker after each stimulus, so its position is observed; judged by the extracted predicate fin_ok (callback in the segment of "
+                 "marker after each stimulus, so its position is observed; while a subscription is being unsubscribed the callback also pushes an item "
+                 "into the subject, so an input still connected at that moment shows; inputs that never hold the observer (never(), a subject "
+                 "terminated beforehand) with every sequence of <= 3 unsubscriptions / guard drops / late events; judged by the extracted predicate fin_ok (callback in the segment of "
                  "the first trigger, last there, nowhere else) and compared with the model; plus real-thread rounds racing a terminating thread "
                  "against an unsubscribing thread on finalize_threads (supporting evidence for the atomic-take assumption of C15_race_once)"
                  % ((5, 4) if tier == "quick" else (7, 6)))
